@@ -115,7 +115,10 @@ claim("C10", "DESIGN.md 5/C10 and 9", "Lean theorems: characters -> tokens -> pr
 claim("C11", "DESIGN.md 5/C11", "Lean theorems on line counting + differential correspondence incl. every line number + by-construction line oracles",
       "In the model a parse is a function of the text alone (history independence is definitional; the real Parser is compared after 0-3 earlier parses and earlier loads in the process). "
       "Theorems in MPilot.C11 state what the line of a token is (1 + line breaks before it, CRLF once, line breaks inside quoted strings counted). Load-time and pre-pass errors carry the line of "
-      "the offending command/argument by the definitions proved in C12 (addCommand_errors, prepassCmd_first_error). Every fault kind is injected at a known line; cycles and run-time errors of real bodies are checked too.",
+      "the offending command/argument: load_error_line / load_error_line_parsed (whatever file is loaded, a load error is CommandDoesNotExist, DuplicateResult or MissingParameters with the line of the first command that cannot be added, "
+      "or NoSuchParameter with the line of that command's undeclared argument - never a line that belongs to nothing in the file), prepassCmd_error_line / prepass_error_line (a validation error of Program.run carries the line of the declared argument whose "
+      "cleaning failed, with that failure's class), together with C12's addCommand_errors and prepassCmd_first_error. Every fault kind is injected at a known line (lists written over several lines included; an error without a line where the pinned code gives one is a failure); cycles and run-time errors of real bodies are checked too; "
+      "one EEMSRead asked again while its file is repaired keeps naming the true file line.",
       XB)
 claim("C15", "DESIGN.md 5/C15 and 9", "Lean theorems: serialize_parse_roundtrip (whole programs) + quote_roundtrip (every string) + character-exact correspondence of to_string() + load-back oracle",
       "Theorems: MPilot.C15P.serialize_parse_roundtrip - the text the serializer model writes for a program (commands in order, one argument per line, strings quoted, integers in decimal, references/booleans/None "
@@ -141,7 +144,8 @@ claim("C17", "DESIGN.md 5/C17", "Lean theorems on the column-reading logic + cor
 claim("C18", "DESIGN.md 5/C18", "Lean theorems on the command logic over an assumed dataset store + correspondence on generated NetCDF files + faithfulness oracles through the library",
       "Partial by nature: netCDF4/HDF5 (storage, compression, fill values, attribute copying, CRS discovery) is assumed - 'what is assigned is what is read' - and only validated on generated "
       "files. Theorems in MPilot.C18: unionMask_spec / ncWrite_spec (every variable keeps shape, element type and values; missing exactly where any result written together is missing), "
-      "read_default (float by default, faithful), read_missing_value_mask, read_positive_check, read_fuzzy_check, read_no_such_variable. The real EEMSRead/EEMSWrite are compared with the model "
+      "read_default (float by default, faithful), read_missing_value_mask, read_positive_check, read_fuzzy_check, read_no_such_variable, write_read_round_trip (results of one grid written together and one of them read back: same shape, missing exactly "
+      "where some result written with it is missing, the result's own value in every other cell - for any number of results, cells and any position), write_alone_read_back. The real EEMSRead/EEMSWrite are compared with the model "
       "using the array the library actually delivers; files are inspected through the library itself (shape, kind, values, union mask, dimension variables, coordinate values, attributes). "
       "Whole NetCDF command files (read, one or two data commands, write; any file order) are loaded with Program.from_source, run, and the written dataset compared with the computed results.",
       TB)
